@@ -56,6 +56,32 @@ def permute_deep(v, rnd):
 
 def cases(shard, rnd):
     if shard['what'] == 'tables':
+        # live dictionary: tables keyed by constants of the tree under test
+        # (several at once, mixed with neighbours that sort around them), and
+        # tables / arrays whose sizes are such constants
+        from ..gen import magic
+        mp = magic.pool()
+        keys = [m[:128] for m in mp.strs]
+        for i in range(max(40, shard['n'] // 8)):
+            ks = rnd.sample(keys, min(len(keys), rnd.choice([2, 3, 4, 6])))
+            t = {}
+            for a in ks:
+                t[a] = gv.value(rnd, 0, 1)
+                if rnd.random() < 0.5:
+                    t[gv.trim_key(a + rnd.choice('!0Az~'), 128, 250)] = \
+                        rnd.choice(mp.strs)
+                if rnd.random() < 0.3 and a:
+                    t[a[:-1]] = rnd.choice(mp.ints)
+            if rnd.random() < 0.3:
+                t = {'outer': t, 'arr': [dict(t), 1]}
+            yield {'t': 'table', 'v': t, 'allperms': len(t) <= 4}
+        for n in mp.lengths:
+            if 2 <= n <= 300 and rnd.random() < 0.5:
+                yield {'t': 'table', 'v': {'k%03d' % j: rnd.choice(
+                    [j, None, 'v']) for j in range(n)}}
+                yield {'t': 'array', 'v': [rnd.choice([j, None, 'v', {'b': 1,
+                                                                      'a': 2}])
+                                           for j in range(n)]}
         for i in range(shard['n']):
             k = rnd.random()
             if k < 0.25:
@@ -100,10 +126,11 @@ def cases(shard, rnd):
     else:
         for idx in shard['indexes']:
             spec = refspec.METHODS[idx]
-            for _ in range(shard['per']):
+            for j in range(shard['per']):
                 yield {'t': 'method', 'index': idx,
-                       'vals': gf.assignment(rnd, spec), 'ch': gf.rchannel(
-                           rnd), 'legacy': rnd.random() < 0.2}
+                       'vals': gf.assignment(rnd, spec,
+                                             magic=0.7 if j % 3 == 2 else 0),
+                       'ch': gf.rchannel(rnd), 'legacy': rnd.random() < 0.2}
         for _ in range(shard['per'] * 8):
             yield {'t': 'header',
                    'props': gf.props_for_mask(rnd, rnd.getrandbits(13)),
